@@ -14,6 +14,7 @@ import (
 	"github.com/dolthub/go-mysql-server/sql"
 
 	"verif/harness/core"
+	"verif/harness/g3lib"
 )
 
 const (
@@ -71,7 +72,7 @@ func minimizeROL(ctx context.Context, in []sql.MySQLRange, class string) []sql.M
 	return cur
 }
 
-func reportROLError(r *core.Run, ctx context.Context, s *rset, err error) {
+func reportROLError(r *g3lib.Rec, ctx context.Context, s *rset, err error) {
 	n := s.n()
 	msg := err.Error()
 	w := map[string]any{"types": domNames(s.doms), "in": rangesString(s.ranges), "err": msg}
